@@ -3,6 +3,9 @@
  *   PV_FAULTS=w3=e28,r2=eintr,w1=short1,f1=e5,c2=e5   the k-th call of an op (on a data fd) gets the action
  *   PV_FAULT_FDS=0,1,...     restrict to these descriptors (default: every fd except 2)
  *   PV_FAULT_REPORT=<path>   at exit append "calls=<n> fired=<m>"
+ *   PV_DELAY_AFTER_WRITE_US=<us> / PV_DELAY_BEFORE_READ_US=<us>   sleep around every write / read on descriptors > 2
+ *                            (nothing is dropped or reordered: pins one legal schedule of the threads)
+ *   PV_DELAY_ONLY=<name>     apply the delays only in the process whose program name ends with <name>
  * Calls made by glibc's stdio internally do not go through the PLT and are not affected.
  */
 #define _GNU_SOURCE
@@ -77,6 +80,19 @@ static void init(void) {
   atexit(report);
 }
 
+static long delay_w = -1, delay_r = -1;
+static void delays_init(void) {
+  if (delay_w >= 0) return;
+  const char *a = getenv("PV_DELAY_AFTER_WRITE_US"), *b = getenv("PV_DELAY_BEFORE_READ_US"), *only = getenv("PV_DELAY_ONLY");
+  delay_w = a ? atol(a) : 0;
+  delay_r = b ? atol(b) : 0;
+  if (only) {
+    extern char *program_invocation_short_name;
+    size_t n = strlen(only), m = strlen(program_invocation_short_name);
+    if (m < n || strcmp(program_invocation_short_name + m - n, only)) { delay_w = 0; delay_r = 0; }
+  }
+}
+
 static int watched(int fd) {
   if (fd == 2) return 0;
   if (!nfd_filter) return 1;
@@ -116,6 +132,8 @@ static long decide(int op, size_t count) {
 }
 
 ssize_t read(int fd, void *buf, size_t count) {
+  delays_init();
+  if (delay_r > 0 && fd > 2) usleep(delay_r);
   if (watched(fd) && count) {
     long d = decide(0, count);
     if (d == -1) return -1;
@@ -130,7 +148,10 @@ ssize_t write(int fd, const void *buf, size_t count) {
     if (d == -1) return -1;
     if (d >= 1 && (size_t)d < count) count = d;
   }
-  return syscall(SYS_write, fd, buf, count);
+  delays_init();
+  ssize_t r = syscall(SYS_write, fd, buf, count);
+  if (delay_w > 0 && fd > 2 && r > 0) usleep(delay_w);
+  return r;
 }
 
 int fsync(int fd) {
